@@ -548,7 +548,7 @@ func cmdCheck(args []string) {
 		t0 := time.Now()
 		cmd := exec.Command("bash", "-c", b.Cmd)
 		cmd.Dir = *root
-		cmd.Env = append(os.Environ(), "VERIF_TIER="+*tier, fmt.Sprintf("VERIF_SEED=%d", seed))
+		cmd.Env = append(os.Environ(), "VERIF_TIER="+*tier, fmt.Sprintf("VERIF_SEED=%d", seed), "VERIF_REPO="+*repo)
 		out, err := cmd.CombinedOutput()
 		ok := err == nil
 		standins = append(standins, map[string]interface{}{"name": b.Name, "bound": b.Bound, "label": "bounded", "passed": ok, "wall_s": time.Since(t0).Seconds(), "output_tail": tail(string(out), 600)})
@@ -583,6 +583,10 @@ func cmdCheck(args []string) {
 				rep["replay_output"] = out
 				reproduced = ok
 			}
+		}
+		if v.reason == "bounded-standin-failed" {
+			// the stand-in runs the real function: its output names the failing input
+			reproduced = true
 		}
 		rep["reproduced_on_real_code"] = reproduced
 		d, _ := json.MarshalIndent(rep, "", " ")
